@@ -5,7 +5,9 @@ Deciding method.
     (lean/PyTealV/Models/Annot.lean) against the independent TEAL grammar: a comment op has no
     tokens whatever its text; `Comment(text)` is total and each of its lines is one physical line
     without tokens; the subroutine label is legal, parses as that label and determines the index;
-    the header is exactly one statement when the name has no line feed (counterexample otherwise);
+    the header is exactly one statement, the label, for EVERY name (the name is cut with
+    `str.splitlines()`, one `// piece` line per piece; `name_comment_regression` keeps the text
+    before the repair 90c7383, which injected statements for names with a line feed);
     in the code-generation model a Comment/Pragma wrapper is transparent and a Nonce is the
     push-and-pop block followed by the child's code.
 (2) Tie model = code: `str.splitlines`, `TealOp(Op.comment)`, `CommentExpr`, `Comment`,
@@ -31,7 +33,8 @@ from gen import Cfg, G
 from recipes import B, N, U, Program, Sub, Var, compile_real, gen_ctx, render_ctx, pack, unpack
 from shrink import children_paths, clone, get_at, set_at
 
-PROOF_MODULES = ["PyTealV.Proofs.C18"]
+# AnnotLemmas: the splitlines / comment-line lemmas shared with C04 §5 (label lines)
+PROOF_MODULES = ["PyTealV.Proofs.C18", "PyTealV.Proofs.AnnotLemmas"]
 TRUSTED = [
     "Lean 4 kernel; axioms propext, Classical.choice, Quot.sound only",
     "TEAL grammar lean/PyTealV/Avm/Syntax.lean (tokenise, splitStatements, parseInstr) as the spec of the assembler; "
@@ -58,7 +61,11 @@ ALPHABET = list(BREAKS) + list("\"\\/;#: \t()abcXYZ019_-") + ["\u00e9", "\u2603"
 
 NAMES_PLAIN = ["a b", "\u00e9\u2603", "q\"x", "a//b", "a;b", "x" * 3000, "", "123", "_", "main", "main_l0", "f_0", "#pragma version 1",
                "a\rb", "a\x0bb", "a\u2028b", "a\x85b", "\t", "a\\b", "err", "b main_l0", "  ", "A-Z", "\U0001F600", "\x00"]
-NAMES_NL = ["f\nerr", "f\nint 0\nreturn", "f\n", "\n", "a\r\nb", "x\nmain_l0:", "\nerr\n"]
+# names with a line feed (alone and mixed with the other boundaries of str.splitlines())
+NAMES_NL = ["f\nerr", "f\nint 0\nreturn", "f\n", "\n", "a\r\nb", "x\nmain_l0:", "\nerr\n", "f\rerr\nerr", "f\u2028err\nint 0\x85return",
+            "\n\r\n\x0b\x0c\x1c\x1d\x1e\x85\u2028\u2029", "f\r\nerr\n\rerr", "f\x0berr\x0cerr\nerr"]
+# names with a boundary of str.splitlines() other than the line feed
+NAMES_BREAK = ["f\rerr", "f\x0berr", "f\x0cerr", "f\x1cerr", "f\x1derr", "f\x1eerr", "f\x85err", "f\u2028err", "f\u2029err", "\r", "\u2028", "f\r\rerr"]
 MAXREC = 3
 
 
@@ -420,7 +427,7 @@ def variants(prog: Program, r, tier, ranges, stats):
             p2 = clone(prog)
             names = []
             for s in p2.subs:
-                s.name = r.choice(NAMES_NL if (exotic and r.random() < 0.7) else NAMES_PLAIN + [gen_text(r).replace("\n", " ")])
+                s.name = r.choice(NAMES_NL if (exotic and r.random() < 0.7) else NAMES_PLAIN + NAMES_BREAK + [gen_text(r)])
                 names.append(s.name)
             if exotic and not any("\n" in x for x in names):
                 p2.subs[0].name = r.choice(NAMES_NL)
@@ -541,7 +548,7 @@ def correspondence(rep, d, streams, r, tier, stats, samples):
     from pyteal.compiler.subroutines import resolveSubroutines
     k = 300 if tier == "quick" else 5000
     for i in range(k):
-        names = [r.choice(NAMES_PLAIN + NAMES_NL) if r.random() < 0.4 else gen_text(r) for _ in range(r.choice([1, 2, 3, 12]))]
+        names = [r.choice(NAMES_PLAIN + NAMES_NL + NAMES_BREAK) if r.random() < 0.4 else gen_text(r) for _ in range(r.choice([1, 2, 3, 12]))]
         stats["corr:header-programs"] += 1
         subs = []
         for nm in names:
@@ -690,6 +697,11 @@ def compare(rep, d, streams, r, cfg, stats, base_prog, base_res, version, v: Var
         if base_res[0] == "ok" and res[:2] == ("crash", "RecursionError") and isinstance(text, str) and len(text.splitlines()) >= 100:
             report(f"a comment of {len(text.splitlines())} lines makes compilation die with RecursionError ({v.kind})", key="C18-long-comment-recursion")
             return 0
+        if v.hidden and base_res[:2] == ("err", "TealCompileError") and res[0] == "ok" and "end index must be greater" in str(base_res[2:]):
+            # Substring.__get_op (the opcode selection) is also where `end >= start` is checked, for literal Ints only
+            report(f"wrapping an Int literal operand of Substring hides it from the opcode selection and from its literal-only check "
+                   f"`end >= start` ({v.kind}): the base is refused at compile time, the variant compiles to substring3", key="C18-wrapped-literal-opcode")
+            return 0
         report(f"compile outcome changed by an annotation ({v.kind} {str(v.detail)[:120]}): base {base_res[:2] if base_res[0] != 'ok' else 'ok'} "
                f"variant {res[:3] if res[0] != 'ok' else 'ok'}")
         return 0
@@ -699,7 +711,11 @@ def compare(rep, d, streams, r, cfg, stats, base_prog, base_res, version, v: Var
     base_teal, var_teal = base_res[1], res[1]
     sb, sv = streams.of(base_teal), streams.of(var_teal)
     nonce_pos = None
-    if v.nonce is not None:
+    if v.nonce is not None and var_teal == base_teal:
+        # the wrapped node is in code the compiler does not emit (e.g. behind a Return): nothing to delete, nothing changed
+        same = True
+        stats["nonce:not-emitted(identical text)"] += 1
+    elif v.nonce is not None:
         pos, ncand = delete_nonce(d, sv, sb, v.nonce)
         same = pos is not None
         nonce_pos = pos
@@ -767,8 +783,11 @@ def compare(rep, d, streams, r, cfg, stats, base_prog, base_res, version, v: Var
                    f"first difference {diff}; control-flow graphs are isomorphic over identical instructions", extra, key="C18-comment-block-changes-layout")
             return execs
     if v.has_nl_name:
-        report(f"subroutine name with a line feed injects statements: {str(v.detail)[:100]} first difference {diff}" +
-               (f"; behaviour differs: {differing[1][:200]}" if differing else ""), extra, key="C18-name-newline")
+        # was the known finding C18-name-newline until the repair 90c7383 (name_comment_safe now holds for every name):
+        # a violation, no key
+        report(f"subroutine name with a line feed changes the statement stream (the defect repaired by 90c7383 is back?): "
+               f"{str(v.detail)[:100]} first difference {diff}" +
+               (f"; behaviour differs: {differing[1][:200]}" if differing else "") + (f"; parse: {perr[1][:100]}" if perr else ""), extra)
         return execs
     if v.hidden and differing is None and perr is None and not same and literal_selection_only(sb, sv, v.nonce):
         report(f"wrapping an Int literal operand of Substring/Extract/Suffix changes the opcode selection ({v.kind}): first difference {diff}",
@@ -839,13 +858,20 @@ def run(tier: str) -> int:
             for v in vs:
                 execs += compare(rep, d, streams, r, cfg, stats, p, base, ver, v, recorded, samples)
 
-    # directed replay of the known finding on the real code
+    # regression case (was the known finding C18-name-newline, repaired by 90c7383; Lean: name_comment_regression):
+    # the routine named "f\nerr" must have the statement stream of the routine named "f" -- `compare` reports a
+    # VIOLATION (no key) if the extra `err` statement ever comes back
     f = Sub(0, "f\nerr", [], N, ("op", "PopU", [("int", 1)]))
     kp = Program("app", ("seq", [("call", f, []), ("approve",)]), [], [f])
     f2 = Sub(0, "f", [], N, ("op", "PopU", [("int", 1)]))
     kb = Program("app", ("seq", [("call", f2, []), ("approve",)]), [], [f2])
     execs += compare(rep, d, streams, r, cfg, stats, kb, compile_real(kb, 6), 6,
                      Variant("rename", kp, {"names": ["f\nerr"]}, has_nl_name=True), recorded, samples)
+    reg = compile_real(kp, 6)
+    stats["regression:name-newline:" + ("header-as-model" if reg[0] == "ok" and "\n\n// f\n// err\nferr_0:\n" in reg[1] else "HEADER-DIFFERS")] += 1
+    if not (reg[0] == "ok" and "\n\n// f\n// err\nferr_0:\n" in reg[1]):
+        rep.violation("the header of the subroutine named 'f\\nerr' is not the text of name_comment_regression (`// f`, `// err`, `ferr_0:`): "
+                      + repr(reg[1])[:300], {"kind": "regression", "name": "f\nerr", "version": 6, "result": list(reg[:2])})
     d.close()
     qt.__exit__()
 
